@@ -1,6 +1,7 @@
 #!/usr/bin/env python3
 """Detection matrix: every seeded change (seeded/<Cxx>-<mN>/patch.diff) and every reverted fix (seeded/reverts/<commit>.diff)
-is applied to /repo, the quick check of the property it breaks is run, the change is undone straight afterwards.
+is applied to a scratch worktree of /repo's HEAD (outside /repo and /verif; VERIF_REPO points the check at it, VERIF_OUT keeps its
+evidence and replay files out of /verif), the quick check of the property it breaks is run, the worktree is removed at the end.
 Result: seeded/RESULTS.md (one row per change) and seeded/results.json.
 Usage: seeded_matrix.py [--tier quick] [--seed 0] [names ...]      (run it on an otherwise idle machine)"""
 import json
@@ -48,25 +49,29 @@ def main():
             names.append(a)
     res_path = os.path.join(SEEDED, 'results.json')
     results = json.load(open(res_path)) if os.path.exists(res_path) else {}
-    if sh('git -C /repo status --porcelain').stdout.strip():
-        print('the working tree of /repo is not clean: refusing')
+    wt = '/tmp/seeded_matrix_wt'
+    out_dir = '/tmp/seeded_matrix_out'
+    sh(f'git -C /repo worktree remove --force {wt}')
+    sh(f'rm -rf {wt} {out_dir}')
+    if sh(f'git -C /repo worktree add -q --detach {wt} HEAD').returncode != 0:
+        print('cannot create the scratch worktree')
         return 2
     for name, patch, props in items():
         if names and name not in names:
             continue
         for prop in props:
-            ap = sh(f'git -C /repo apply {patch}')
+            ap = sh(f'git -C {wt} apply {patch}')
             if ap.returncode != 0:
                 results[f'{name}|{prop}'] = {'change': name, 'property': prop, 'outcome': 'patch does not apply', 'detail': ap.stdout[-200:]}
                 continue
             t0 = time.time()
             try:
-                r = sh(f'cd {ROOT} && VERIF_SEED={seed} ./check {prop} --tier {tier}', timeout=3600)
+                r = sh(f'cd {ROOT} && VERIF_REPO={wt} VERIF_OUT={out_dir} VERIF_SEED={seed} ./check {prop} --tier {tier}', timeout=3600)
                 rc, out = r.returncode, r.stdout
             except subprocess.TimeoutExpired:
                 rc, out = 2, 'timeout'
             finally:
-                sh('git -C /repo checkout -- . && git -C /repo clean -fdq')
+                sh(f'git -C {wt} checkout -- . && git -C {wt} clean -fdq')
             viol = [ln for ln in out.splitlines() if ln.startswith('VIOLATION')]
             fails = [ln for ln in out.splitlines() if 'failing input' in ln]
             nf = any('no-failing-input-found' in v for v in viol)
@@ -78,6 +83,8 @@ def main():
                                          'also_no_failing_input_lines': nf, 'wall_s': round(time.time() - t0, 1)}
             print(name, prop, outcome, (fails[0][:200] if fails else ''), flush=True)
             json.dump(results, open(res_path, 'w'), indent=1, sort_keys=True)
+    sh(f'git -C /repo worktree remove --force {wt}')
+    sh(f'rm -rf {wt} {out_dir}')
     with open(os.path.join(SEEDED, 'RESULTS.md'), 'w') as fh:
         fh.write('# Seeded changes against the checks\n\n'
                  'Produced by `tools/seeded_matrix.py` (apply the change to /repo, run the check of the property it breaks, undo it).\n'
